@@ -81,25 +81,25 @@ CHECKS = {
 
 # additions to the texts above (legs added while testing the checks against seeded changes)
 MORE = {
-    "C03": " Programs P11/P12 have program order inside a thread (a delivery, then the cleanup); the daemon's own wiring of the correlator is exercised by handing both halves of six sessions per round to Auditd.Read at the same moment from two goroutines (free running, 400 / 4000 rounds), judged by TrackerTrace.",
+    "C03": " Programs P11/P12 have program order inside a thread (a delivery, then the cleanup); the daemon's own wiring of the correlator is exercised by handing both halves of six sessions per round to Auditd.Read at the same moment from two goroutines (free running, 400 / 4000 rounds), judged by TrackerTrace. Sequential orders must respect the real-time precedence observed in each execution (linearizability, not only sequential consistency).",
     "C01": " The same histories (without cleanup) also go through Auditd.Read as real audit log lines (L2) and, as two concurrent input scripts, through the built daemon (L3).",
     "C02": " L2 (Auditd.Read, real log lines) and L3 (built daemon) legs as for C01; PID-reuse histories; hold queues of 300 (thorough 1100) events flushed mid-session and after the session's end; many sessions in one cleanup pass.",
     "C04": " L2 and L3 legs as for C01, with null sessions, unparsable PIDs and invalid logins; PID-reuse histories; silence also while Auditd.Read shuts down with a login-less session holding events.",
     "C05": " CountedOnce is part of the model. Through the whole worker (FIFO, ingesters, processor) a login blocked in the hand-off for 6.5 s while the correlator is busy must still be delivered; on one long-lived processor a login handed over earlier keeps its event (StreamLoginStable).",
     "C06": " Every line is also delivered to ONE long-lived processor (StreamExact); every second concretisation keeps half of the previous values; a third of the lines is delivered twice in a row; three short runs of the built daemon (NODE_NAME set / empty / unset) check that every event carries this node's name and machine id.",
     "C07": " Also through a real FIFO and the whole ingester chain; audit record lines with and without their newline.",
-    "C08": " 30 scenarios now: also partial EOF, unknown record type, the output breaking with events in flight (complete head event / staggered 2 s time-outs), and --healthz --metrics --audit-metrics with a busy port; the model has the HTTP and audit-metrics workers.",
-    "C09": " Histories include the login of the reused PID overtaking the end of the earlier session (the two pipes are independent); L2 leg through Auditd.Read.",
+    "C08": " 30 scenarios now: also partial EOF, unknown record type, the output breaking with events in flight (complete head event / staggered 2 s time-outs), and --healthz --metrics --audit-metrics with a busy port; signals while the events output does not exist yet; the model has the HTTP and audit-metrics workers.",
+    "C09": " Histories include the login of the reused PID overtaking the end of the earlier session (the two pipes are independent); every other login is anonymous; 1 100 events held, the session ended and the PID used again; L2 leg through Auditd.Read.",
     "C10": " Four daemons run side by side; every other run appends to a file that already holds the lines of an earlier run, which must stay intact; bursts of failed logins in the sshd script.",
     "C11": " Also head-in-front duplications; every line also on one long-lived processor (StreamUniversal).",
     "C12": " A sample of the scenarios is run again with 150 ms (thorough: also 1.1 s) of silence after every write call; now and then a record is longer than 64 KiB.",
-    "C13": " 30+ blocking situations, each cancelled at once and after a 2.6 s stall; also: the pipe's path removed or replaced while waiting for a writer, an event still being assembled (flushed before Read returns), the worker inside the event write, the flush on the way out with a failing output.",
+    "C13": " 30+ blocking situations, each cancelled at once and after a 2.6 s stall; also: the pipe's path removed or replaced while waiting for a writer, an event still being assembled (flushed before Read returns), the worker inside the event write, the flush on the way out with a failing output, 1 500 lines queued behind a write in progress (the queue is left alone).",
     "C14": " L2 leg against aucoalesce's own view of the same records.",
-    "C15": " Delivery modes: stepwise, as a backlog in a buffered channel, and with the failure reported while Read is busy in RemoteLogin; malformed-line classes; persistent output failures; a sample of three-event scenarios.",
+    "C15": " Delivery modes: stepwise, as a backlog in a buffered channel, and with the failure reported while Read is busy in RemoteLogin; malformed-line classes; persistent output failures; a sample of three-event scenarios; the audit-log ingester with a full line channel loses no line (worker scenario sendingthrough, PipelineTrace).",
     "C16": " Histories with 24 / 40 sessions or logins in ONE cleanup pass (all stale, all correlated, half and half). Staleness.tla models the ticker phase against arrival times; the thorough tier runs Auditd.Read in real time (its own one-minute ticker, filler logins) and validates the runs with StalenessTrace.tla.",
     "C17": " Names imitating whole other messages, grammar-fragment walks, [preauth] suffixes and phrases of unhandled sshd messages; also on one long-lived processor.",
-    "C18": " A probe request after the last thread of every program (an answer computed during the concurrent part must not outlive it); writing the status line and the body are scheduling points; 210 WaitForReady scripts incl. registrations after the wait started and re-registration after 'seen ready', each followed by a second wait on the same object.",
-    "C19": " Counters are read from a fresh registry per line AND from one long-lived registry for the whole run (StreamCounter, repeats, twins); the 54 worker scripts of SshdProc log the counter (CountedOnce: an emitted event is counted exactly once whether the hand-off completed or was abandoned).",
+    "C18": " A probe request after the last thread of every program (an answer computed during the concurrent part must not outlive it); writing the status line and the body are scheduling points; 210 WaitForReady scripts incl. registrations after the wait started and re-registration after 'seen ready', each followed by a second wait on the same object; waits whose context was cancelled before they started.",
+    "C19": " Counters are read from a fresh registry per line AND from one long-lived registry for the whole run (StreamCounter, repeats, twins), every third record with the package logger at debug level; the 54 worker scripts of SshdProc log the counter (CountedOnce: an emitted event is counted exactly once whether the hand-off completed or was abandoned).",
     "C20": " Long lines are 10 000 bytes (their unterminated first half alone exceeds the read buffer).",
 }
 for _p, _t in MORE.items():
